@@ -370,7 +370,7 @@ func driveUDP(env *fw.Env, sp udpSpec) *fw.Trace {
 	}
 	if ret != nil && sp.Sock == "real" && sp.How == "eof" {
 		want := wholeBefore(sp.T, sp.Cut)
-		for dl := time.Now().Add(300 * time.Millisecond); side.delivered() < want && time.Now().Before(dl); {
+		for dl := time.Now().Add(3 * time.Second); side.delivered() < want && time.Now().Before(dl); {
 			time.Sleep(time.Millisecond)
 		}
 	}
